@@ -75,6 +75,7 @@ struct GenOpts {
   bool fixedTallOnly = false;
   int rowOrientPattern = -1;  // -1 random
   bool positiveArea = true;   // movable cells have positive width/height
+  bool centredPins = false;   // pin offsets at (or symmetric around) the cell centre
   int rowHeightOverride = 0;  // >0: row height independent of the x scale (very wide rows)
 };
 
@@ -188,7 +189,10 @@ inline Circuit genCircuit(Rng &rng, const GenOpts &o) {
       if (o.multiRow && rng.chance(o.multiRowProb)) nr = (int)rng.range(2, std::min(4, std::max(2, nRowsY)));
       int cw = (int)(rng.range(1, std::max(1, Wu / 4)) * sc);
       if (rng.chance(0.1)) cw = (int)(rng.range(1, std::max(1, Wu / 2)) * sc);
-      if (sc > 1 && rng.chance(0.5)) cw = std::max(1, cw - (int)rng.range(0, sc - 1));
+      // widths that are not multiples of the scale, but never tiny relative to it: the density grid resolution is
+      // 5 x the smallest positive stored cell height (a turned cell stores its width there), so a 1-unit cell in a design
+      // millions of units wide asks for ~10^10 bins (memory exhaustion, not a property of interest)
+      if (sc > 1 && rng.chance(0.5)) cw = std::max<int>(std::max<long long>(1, sc / 2), cw - (int)rng.range(0, sc - 1));
       int ch = nr * H;
       long long a = (long long)cw * ch;
       if (used + a > util * rowArea && used > 0) {
@@ -242,10 +246,36 @@ inline Circuit genCircuit(Rng &rng, const GenOpts &o) {
   for (int n = 0; n < nNets; ++n) {
     int deg = rng.chance(0.1) ? 1 : (int)rng.range(2, std::min(o.maxDegree, std::max(2, total + 1)));
     std::vector<int> cells, xo, yo;
+    if (o.centredPins && rng.chance(0.6)) {
+      // pins in pairs that are symmetric about the cell centre: the exact right-hand side of the quadratic system
+      // vanishes and only rounding noise is left
+      int pairs = (int)rng.range(1, 3);
+      for (int k = 0; k < pairs; ++k) {
+        int cc = (int)rng.range(0, total - 1);
+        int dx = (int)rng.range(0, 3), dy = (int)rng.range(0, 3);
+        bool evenW = w[cc] % 2 == 0, evenH = h[cc] % 2 == 0;
+        // centre is w/2 (even) or between w/2 and w/2+1 (odd)
+        cells.push_back(cc); xo.push_back(w[cc] / 2 - dx); yo.push_back(h[cc] / 2 - dy);
+        cells.push_back(cc); xo.push_back(w[cc] / 2 + dx + (evenW ? 0 : 1)); yo.push_back(h[cc] / 2 + dy + (evenH ? 0 : 1));
+      }
+      if (rng.chance(0.5)) { int cc = (int)rng.range(0, total - 1); if (w[cc] % 2 == 0 && h[cc] % 2 == 0) { cells.push_back(cc); xo.push_back(w[cc] / 2); yo.push_back(h[cc] / 2); } }
+      // shuffle the pins: the partial sums then cancel only up to rounding
+      for (int i = (int)cells.size() - 1; i > 0; --i) {
+        int j = (int)rng.range(0, i);
+        std::swap(cells[i], cells[j]); std::swap(xo[i], xo[j]); std::swap(yo[i], yo[j]);
+      }
+      float wt = (float)rng.pick(std::vector<double>{0.25, 0.5, 1.0, 1.5, 2.5, 3.0, 0.3, 0.7});
+      c.addNet(cells, xo, yo, wt);
+      continue;
+    }
     for (int k = 0; k < deg; ++k) {
       int cc = (int)rng.range(0, total - 1);
       cells.push_back(cc);
-      if (rng.chance(0.1)) {
+      if (o.centredPins && rng.chance(0.8)) {
+        int dx = rng.chance(0.5) ? 0 : (int)rng.range(-2, 2), dy = rng.chance(0.5) ? 0 : (int)rng.range(-2, 2);
+        xo.push_back(w[cc] / 2 + dx);
+        yo.push_back(h[cc] / 2 + dy);
+      } else if (rng.chance(0.1)) {
         xo.push_back((int)(rng.range(-5, 25) * sc));
         yo.push_back((int)(rng.range(-5, 25) * scy));
       } else {
@@ -675,6 +705,9 @@ inline GenOpts makeProfile(Rng &rng, const std::string &name) {
     // keep the number of density bins per row in the low thousands (width / (5 x height))
     o.rowHeightOverride = o.scale == 1000 ? (int)rng.pick(std::vector<int>{40, 100}) : o.scale == 10000 ? (int)rng.pick(std::vector<int>{100, 400}) : (int)rng.pick(std::vector<int>{400, 1000});
     o.maxCells = std::min(o.maxCells, 20);
+  } else if (name == "floating") {
+    // no fixed cells at all: every net is a floating component of the quadratic system; pins at the cell centres
+    o.maxFixed = 0; o.centredPins = true; o.maxNets = 8; o.maxCells = std::min(o.maxCells, 12);
   } else if (name == "degenerate") {
     int k = (int)rng.range(0, 5);
     if (k == 0) { o.maxRows = 1; }
